@@ -842,7 +842,7 @@ trait ScalarJson {
 impl<'tcx> ScalarJson for ty::Const<'tcx> {
     fn try_to_scalar_int_for_json(&self, _ty: Ty<'_>) -> Option<String> {
         // type-system constants (array lengths, const generics): printed form is enough
-        Some(js(&format!("{}", self)))
+        Some(format!("{{\"tyc\":{}}}", js(&format!("{}", self))))
     }
 }
 
